@@ -205,7 +205,9 @@ func main() {
 			cfg{"", "jitter0.3*2^-20", 0.3, 1.0 / (1 << 20), 0, 0, 4}, cfg{"", "jitter0.3+offset(4096,-8192)", 0.3, 1, 4096, -8192, 4},
 			cfg{"", "jitter1e-2+offset", 1e-2, 1, -1024, 512, 4}, cfg{"", "5x5jitter0.3", 0.3, 1, 0, 0, 5})
 	} else {
-		cfgs = append(cfgs, cfg{"", "jitter0.3*2^20", 0.3, 1 << 20, 0, 0, 4}, cfg{"", "jitter0.3+offset(4096,-8192)", 0.3, 1, 4096, -8192, 4})
+		cfgs = append(cfgs, cfg{"", "jitter0.3*2^20", 0.3, 1 << 20, 0, 0, 4}, cfg{"", "jitter0.3+offset(4096,-8192)", 0.3, 1, 4096, -8192, 4},
+			// the two configurations in which the known findings (slivers, tiny coordinates) occur
+			cfg{"", "jitter1e-4", 1e-4, 1, 0, 0, 4}, cfg{"", "jitter0.3*2^-20", 0.3, 1.0 / (1 << 20), 0, 0, 4})
 	}
 	// nearly horizontal edges (y one ulp apart) at the origin and at coordinates of 1e4
 	cfgs = append(cfgs, cfg{"y1ulp", "jitter0.3,pairs-1ulp-apart-in-y", 0.3, 1, 0, 0, 4}, cfg{"y1ulp", "jitter0.3,pairs-1ulp-apart-in-y+offset(10004,10004)", 0.3, 1, 10004, 10004, 4},
@@ -273,7 +275,17 @@ func main() {
 				}
 				return m
 			}
-			fast, err := render.Delaunay2d(in)
+			var fast render.TriangleISet
+			var err error
+			var crashed any
+			func() {
+				defer func() { crashed = recover() }()
+				fast, err = render.Delaunay2d(in)
+			}()
+			if crashed != nil {
+				c.Violation("Delaunay2d|panic", fmt.Sprintf("%s %v: Delaunay2d panicked (%v) while other triangulations were being computed", cf.name, S, crashed), rep(nil))
+				return
+			}
 			if err != nil {
 				c.Violation("Delaunay2d|error", fmt.Sprintf("%s %v: error %v", cf.name, S, err), rep(nil))
 				return
